@@ -245,6 +245,19 @@ let check (op : string) (ty : string) (a : string array) (expected : string) : b
      if int_of_nat x.onv <> int_of_nat y.onv then Some (expected = "panic") else if expected = "panic" then Some false else
      let r = p_soes expected in
      Some (int_of_nat r.onv = int_of_nat x.onv && chk_soes_or x.onv x.ocubes y.ocubes r.ocubes)
+  | "c.minterm" -> let nn = p_n a.(0) and k = p_n a.(1) in
+     (* the cube true exactly on the assignment k of the first n variables: pos = k mod 2^n, neg = the other n bits *)
+     if n_lt (n_of_int 32) nn then None else
+     let r = p_cube expected in
+     let full = N.sub (N.pow (n_of_int 2) nn) (n_of_int 1) in
+     let pos = N.coq_land k full in
+     Some (N.eqb r.cpos pos && N.eqb r.cneg (N.sub full pos))
+  | "o.is_one" -> let x = p_soes a.(0) in
+     if int_of_nat x.onv > 12 then None else
+     Some ((not (p_bool expected)) || List.for_all (fun m -> spec_soes_value x.ocubes m) (dom x.onv))
+  | "o.is_zero" -> let x = p_soes a.(0) in
+     if int_of_nat x.onv > 12 then None else
+     Some ((not (p_bool expected)) || List.for_all (fun m -> not (spec_soes_value x.ocubes m)) (dom x.onv))
   | "c.display" -> let x = p_cube a.(0) in
      let k = cube_bits x in
      Some (chk_text (p_bytes expected) (spec_cube_value x) (if k <= 12 then dom (nat_of_int k) else sample_assignments) false)
